@@ -435,7 +435,18 @@ func streamEdsReconcile(r *rand.Rand, i int, tier string) *Case {
 		cers = []canon.ERS{}
 	}
 	mode := pick(r, edsv1.ExtendedDaemonSetSpecStrategyCanaryValidationModeAuto, edsv1.ExtendedDaemonSetSpecStrategyCanaryValidationModeManual)
-	rec := newEDSReconciler(cl, mode)
+	sw := &switchClient{Client: cl}
+	rec := newEDSReconciler(sw, mode)
+	if !prerun && r.Intn(4) == 0 {
+		// the same reconciler instance has already reconciled this ExtendedDaemonSet in a world with
+		// a different node population (its writes went to that other world)
+		cat = append(cat, "warm-reconciler")
+		sw.use(loggingClient(perturbNodes(r, objs), &writeLog{}, nil))
+		Recovered(func() {
+			_, _ = rec.Reconcile(context.TODO(), reconcile.Request{NamespacedName: types.NamespacedName{Namespace: testNS, Name: testEDS}})
+		})
+		sw.use(cl)
+	}
 	// the reconciler reads what the API server stored (timestamps truncated to seconds)
 	stored := &edsv1.ExtendedDaemonSet{}
 	_ = cl.Get(context.TODO(), types.NamespacedName{Namespace: testNS, Name: testEDS}, stored)
